@@ -1139,3 +1139,39 @@ Proof.
   intros A L l HL. pose proof (chunks_nonempty L l HL) as H1. pose proof (chunks_len_le L l) as H2.
   induction H1 as [|c ls Hc Hl IH]; [constructor|]. inversion H2; subst. constructor; [split; assumption | apply IH; assumption].
 Qed.
+
+(* ================================================================== AddDeletedSubscription on a name that is already recorded *)
+Lemma subs_add_has_name : forall name r l l', subs_add name r l = Some l' -> existsb (fun p => N.eqb (fst p) name) l' = true.
+Proof.
+  intros name r l l' H. unfold subs_add in H.
+  destruct (existsb (fun p => N.eqb (fst p) name) l) eqn:E.
+  - destruct (existsb (fun p => negb (N.eqb (fst p) name) && N.eqb (snd p) r) l); [discriminate|]. inversion H; subst l'. clear H.
+    apply existsb_exists in E. destruct E as [p [Hp Ep]].
+    apply existsb_exists. exists (name, r). split; [|apply N.eqb_refl].
+    apply in_map_iff. exists p. rewrite Ep. split; [reflexivity | exact Hp].
+  - destruct (existsb (fun p => N.eqb (snd p) r) l); [discriminate|]. inversion H; subst l'. rewrite existsb_app. cbn [existsb fst].
+    rewrite N.eqb_refl. rewrite orb_true_r. reflexivity.
+Qed.
+
+Lemma subs_add_replaces : forall name r l l', existsb (fun p => N.eqb (fst p) name) l = true -> subs_add name r l = Some l' ->
+  In (name, r) l' /\ (forall r', In (name, r') l' -> r' = r) /\ length l' = length l.
+Proof.
+  intros name r l l' E H. unfold subs_add in H. rewrite E in H.
+  destruct (existsb (fun p => negb (N.eqb (fst p) name) && N.eqb (snd p) r) l); [discriminate|]. inversion H; subst l'. clear H. split; [|split].
+  - apply existsb_exists in E. destruct E as [p [Hp Ep]]. apply in_map_iff. exists p. rewrite Ep. tauto.
+  - intros r' Hin. apply in_map_iff in Hin. destruct Hin as [p [Hp _]].
+    destruct (N.eqb (fst p) name) eqn:Ep; [inversion Hp; reflexivity|].
+    subst p. cbn in Ep. rewrite N.eqb_refl in Ep. discriminate.
+  - apply map_length.
+Qed.
+
+Theorem deleted_subscription_replaced : forall name r1 r2 d d1 d2,
+  op_add_deleted_subscription name r1 d = Ok d1 RUnit -> op_add_deleted_subscription name r2 d1 = Ok d2 RUnit ->
+  In (name, r2) (d_subs d2) /\ (forall r, In (name, r) (d_subs d2) -> r = r2) /\ length (d_subs d2) = length (d_subs d1).
+Proof.
+  intros name r1 r2 d d1 d2 H1 H2. unfold op_add_deleted_subscription in *.
+  destruct (subs_add name r1 (d_subs d)) as [l1|] eqn:E1; [|discriminate]. inversion H1; subst d1. clear H1.
+  cbn [d_subs set_subs] in H2.
+  destruct (subs_add name r2 l1) as [l2|] eqn:E2; [|discriminate]. inversion H2; subst d2. clear H2.
+  cbn [d_subs set_subs]. apply (subs_add_replaces name r2 l1 l2); [apply (subs_add_has_name name r1 (d_subs d) l1 E1) | exact E2].
+Qed.
